@@ -104,8 +104,8 @@ Definition refresh (tc : bool) (fmt : pixfmt) (g : geom) (w h : Z) (st : sstate)
                    else go (s :: pre) t
        end) [] (chain st).
 
-(* rfbScalingSetup(cl, w, h).  zero_fix = false: the code as it is (only height 0 is refused);
-   true: proposed repair notes/fix_C17_1.diff (width 0 refused as well).
+(* rfbScalingSetup(cl, w, h).  zero_fix = true: the tree since /repo commit 8e7b6f1 (width 0 and
+   height 0 refused); false: before that commit (only height 0 refused, F2).
    gfull = geometry of the full-screen refresh of a w x h scaled screen. *)
 Definition scaling_setup (zero_fix tc : bool) (fmt : pixfmt) (gfull : geom) (st : sstate) (k : nat) (w h : Z)
   : option sstate :=
